@@ -90,7 +90,7 @@ pub fn write_stats(outcome: &str) {
         out = outcome.to_string();
     }
     let text = format!(
-        "{{\"outcome\":\"{}\",\"decisions\":{},\"choice_points\":{},\"preemptions\":{},\"trace_hash\":\"{:016x}\",\"max_task\":{},\"points\":{},\"hot_points\":{},\"hot_taken\":{},\"allocs\":{},\"gc_minor_injected\":{},\"gc_full_injected\":{},\"alloc_fail_injected\":{},\"stw_operations\":{},\"sweeps\":{},\"probes\":[{}],\"fired\":[{}]}}\n",
+        "{{\"outcome\":\"{}\",\"decisions\":{},\"choice_points\":{},\"preemptions\":{},\"trace_hash\":\"{:016x}\",\"max_task\":{},\"points\":{},\"hot_points\":{},\"hot_taken\":{},\"allocs\":{},\"gc_minor_injected\":{},\"gc_full_injected\":{},\"alloc_fail_injected\":{},\"stw_operations\":{},\"sweeps\":{},\"oom_heap\":[{},{},{}],\"probes\":[{}],\"fired\":[{}]}}\n",
         json_escape(&out),
         rec.decisions.len().max(rec.choice_points as usize),
         rec.choice_points,
@@ -106,6 +106,9 @@ pub fn write_stats(outcome: &str) {
         fault::FIRED_FAIL.load(Ordering::Relaxed),
         crate::monitor::STW_COUNT.load(Ordering::Relaxed),
         crate::monitor::SWEEPS.load(Ordering::Relaxed),
+        crate::monitor::OOM_HEAP[0].load(Ordering::Relaxed),
+        crate::monitor::OOM_HEAP[1].load(Ordering::Relaxed),
+        crate::monitor::OOM_HEAP[2].load(Ordering::Relaxed),
         probes.join(","),
         fired_s.join(",")
     );
